@@ -9,6 +9,7 @@
 import SonicSpec.Model.ConcPMap
 import SonicSpec.Model.ConcRCU
 import SonicSpec.Model.ConcLoad
+import SonicSpec.Generated.Consts
 namespace SonicSpec.Driver.Conc
 open SonicSpec.Conc SonicSpec.Conc.PMap
 
@@ -28,7 +29,8 @@ def digest (m : Tab) : Nat :=
 
 def natOf (s : String) : Option Nat := s.toNat?
 
-def initCap (c : Nat) : Nat := if c = 0 then 4096 else c
+/-- capacity 0 on the wire = the production table (`newProgramMap()`): `_InitCapacity`, regenerated from pcache.go -/
+def initCap (c : Nat) : Nat := if c = 0 then SonicSpec.Gen.pcacheInitCapacity.toNat else c
 
 def dumpSmall (m : Tab) : String :=
   "D" ++ "|".intercalate ((entries m).map fun e => s!"{e.1}:{e.2.1.1}:{e.2.2}")
